@@ -64,7 +64,9 @@ fn build(case: &Case, salt: u64, t: &mut Tape) -> (Generated, String) {
         // bool: is this the exit iteration?
         match case.exit {
             Some(x) => {
-                stmts.push(let_("stop", Ty::Bool, jet("eq_32", vec![var("w"), int(x as u128, 32)])));
+                // in a quarter of the cases the exit iteration is a template parameter read inside the body
+                let k = if salt % 4 == 1 { Expr::Param("EXIT".into()) } else { int(x as u128, 32) };
+                stmts.push(let_("stop", Ty::Bool, jet("eq_32", vec![var("w"), k])));
                 var("stop")
             }
             None => Expr::Bool(false),
@@ -119,9 +121,16 @@ fn build(case: &Case, salt: u64, t: &mut Tape) -> (Generated, String) {
     if perturbed {
         pv[(salt as usize / 6) % n_holes] = true;
     }
-    let (filled, verdict) = eval::fill_holes(&prog, &HashMap::new(), &HashMap::new(), pv);
-    let gen = Generated { prog: filled, witnesses: vec![], params: vec![], labels: Default::default(), intended_verdict: verdict, n_holes, perturbed };
-    let text = render::render(&gen.prog, &Style::canonical());
+    let params: Vec<(String, Val, Ty)> = match case.exit {
+        Some(x) if salt % 4 == 1 => vec![("EXIT".to_string(), Val::uint(32, x as u128), u(32))],
+        _ => vec![],
+    };
+    let pm: HashMap<String, Val> = params.iter().map(|(n, v, _)| (n.clone(), v.clone())).collect();
+    let (filled, verdict) = eval::fill_holes(&prog, &HashMap::new(), &pm, pv);
+    let gen = Generated { prog: filled, witnesses: vec![], params, labels: Default::default(), intended_verdict: verdict, n_holes, perturbed };
+    // every other program in a varied layout (white space and comments inside `for_while::< f >` too)
+    let style = if salt % 2 == 0 { Style::canonical() } else { Style::from_seed(salt) };
+    let text = render::render(&gen.prog, &style);
     (gen, text)
 }
 
@@ -191,7 +200,7 @@ pub fn streams() -> Vec<Stream> {
 pub fn def() -> PropertyDef {
     PropertyDef {
         id: "C09",
-        rule: "enumerated: counter width n in {1,2,4,8} x every exit iteration t in 0..2^n-1 and `never` (complete), plus width 16 at t in {0,1,2,255,256,257,32767,32768,65534,65535,never} (thorough: + 64 pseudo-random exits; sampled, not exhaustive) x loop bodies {order-recording acc' = acc*33+i+1, context-checking assert!(ctx == C) every iteration, poisoned assert!(i <= t) so any iteration after the exit panics, early-left-value Left(!acc'), unit accumulator returning Left(i), pair accumulator (count, last) returning the context on exit}; sub-byte counters are widened through casts. Oracle: the reference interpreter's loop (i = 0,1,2,... ; first Left stops; Right(acc) after 2^n iterations); the program asserts the whole Either result (one constant deliberately wrong in 1/6 of the cases) and its verdict must equal the interpreter's. evaluations = program executions. Non-trivial = exit iteration >= 1 or never (>= 2 iterations run); distinct by program text. exhaustive refers to the widths 1,2,4,8 grid; width 16 is sampled.",
+        rule: "enumerated: counter width n in {1,2,4,8} x every exit iteration t in 0..2^n-1 and `never` (complete), plus width 16 at t in {0,1,2,255,256,257,32767,32768,65534,65535,never} (thorough: + 64 pseudo-random exits; sampled, not exhaustive) x loop bodies {order-recording acc' = acc*33+i+1, context-checking assert!(ctx == C) every iteration, poisoned assert!(i <= t) so any iteration after the exit panics, early-left-value Left(!acc'), unit accumulator returning Left(i), pair accumulator (count, last) returning the context on exit}; sub-byte counters are widened through casts; in a quarter of the cases the exit iteration is `param::EXIT` read inside the loop body; every other program is rendered in a varied layout. Oracle: the reference interpreter's loop (i = 0,1,2,... ; first Left stops; Right(acc) after 2^n iterations); the program asserts the whole Either result (one constant deliberately wrong in 1/6 of the cases) and its verdict must equal the interpreter's. evaluations = program executions. Non-trivial = exit iteration >= 1 or never (>= 2 iterations run); distinct by program text. exhaustive refers to the widths 1,2,4,8 grid; width 16 is sampled.",
         assumptions: &[],
         streams,
         health: &[],
